@@ -19,6 +19,8 @@ from .. import core
 from ..mon.budget import budget, StepBudgetExceeded
 
 PROP = "C19"
+LEVEL_TEXT = 'A lock-step model of every matrix in a pool is advanced with each operation of random histories and compared with all live matrices afterwards (receiver, arguments, bystanders); every operation runs under a JUMP step budget (non-termination is a verdict).'
+LEVEL_NOTE = 'Trusted: the dictionary model in the module; symbols read from the raw taxon->sequence map.'
 LEVEL = "exploration"
 TECHNIQUE = "runtime monitoring: lock-step matrix model for a pool of matrices + JUMP step budget per operation (termination)"
 RULE = ("random histories (length 25) of row/column operations over a pool of 3-4 matrices of one data type sharing a namespace (+ one foreign), "
